@@ -73,8 +73,12 @@ def run_minimize(case):
     import traceback
     import mockturtle_wrapper as mw
     from cirbo.minimization.subcircuit import minimize_subcircuits
+    import pysat.solvers as shim_solver
     c = ct.build_circuit(case['circuit'])
     mw.FAMILY_RNG = random.Random(case['cut_seed']) if case.get('cut_seed') is not None else None
+    # the stand-in solver gives up (SolverTimeOutError, as with solver_time_limit_sec) after a fixed number of
+    # propagations: deterministic, about 2 s; ordinary synthesis calls of these runs need well under a tenth of it
+    shim_solver.PROPAGATION_LIMIT = case.get('propagation_limit', 5000000)
     try:
         out = minimize_subcircuits(c, case['basis'], enable_validation=case.get('validate', False),
                                    max_subcircuit_size=case.get('max_subcircuit_size', 9),
@@ -88,6 +92,7 @@ def run_minimize(case):
         return ('err', type(e).__name__, fn, where)
     finally:
         mw.FAMILY_RNG = None
+        shim_solver.PROPAGATION_LIMIT = None
         case['_closed_family'] = mw.family_is_closed() if mw.LAST_FAMILY is not None else True
     return ('ok', ct.dump_circuit(out))
 
